@@ -21,7 +21,8 @@ NETBASE = {"mainnet": 0x80, "testnet": 0xEF, "regtest": 0xEF}
 def gen_cases(tier, seed):
     rng = rng_for("C14", tier, seed)
     q = tier == "quick"
-    ks = [1, 2, 3, N - 1, N - 2] + keys_boundary() + [rng.randrange(1, N) for _ in range(150 if q else 3000)]
+    from .common import keys_short_coord
+    ks = [1, 2, 3, N - 1, N - 2] + keys_boundary() + keys_short_coord() + [rng.randrange(1, N) for _ in range(150 if q else 3000)]
     for k in ks:
         yield "sec1_roundtrip", {"k": hex(k)}
     for i in range(60 if q else 1200):
